@@ -354,6 +354,7 @@ class AioConn:
             self.sent_after_close += len(data)
 
     def eof(self) -> None:
+        self.client_eof = True
         self.log.add("ceof", conn=self.cid)
         self.transport.feed_eof()
 
@@ -445,14 +446,20 @@ class AioEnv:
     async def set_terminated(self) -> None:
         await self.context.terminated.set()
 
-    def spawn_at(self, dt: float, passes: int, fn: Callable[[], Awaitable[Any]]) -> None:
+    def spawn_at(self, dt: float, passes: int, fn: Callable[[], Awaitable[Any]],
+                 at_abs: Optional[float] = None) -> None:
         """Run `fn` inside the loop at now+dt, `passes` scheduler passes after its timer fires.
 
         `sleep`/`settle` act only once everything due at an instant has run; an action spawned
         here interleaves with the server's and the application's work of that same instant, which
         is how the race windows of a closure (a few passes wide) are reached on purpose."""
         async def runner() -> None:
-            await asyncio.sleep(dt)
+            if at_abs is not None:  # an exact instant (e.g. the one a server timer fires at)
+                fut = self.loop.create_future()
+                self.loop.call_at(at_abs, fut.set_result, None)
+                await fut
+            else:
+                await asyncio.sleep(dt)
             for _ in range(passes):
                 await asyncio.sleep(0)
             await fn()
